@@ -49,7 +49,7 @@
 #define M_SAME_X(m, F, EQ)                                                    \
   ((m).s.hasPQ == F((m).s.hasPQ) && (m).s.hasQP == F((m).s.hasQP) &&                  \
    EQ(*(m).valPQ, F(*(m).valPQ)) && EQ(*(m).valQP, F(*(m).valQP)) &&          \
-   (m).s.restCount == F((m).s.restCount))
+   (m).s.restCount == F((m).s.restCount) && (m).s.restSum == F((m).s.restSum))
 #define M_SAME_VLabel(m, F) M_SAME_X(m, F, LEQ_VLabel)
 #define M_SAME_NoLabel(m, F) M_SAME_X(m, F, LEQ_NoLabel)
 #define M_SAME_uint(m, F) M_SAME_X(m, F, LEQ_uint)
